@@ -19,6 +19,9 @@ namespace vu::pt
    struct pairs : star< key, one< '=' >, val, one< ',' > > {};
    struct top : seq< pairs, key, eof > {};
 
+   // a control that has unwind (declared only: an event): the tree-building control wraps the caller's control and owes it every hook (C08)
+   template< typename Rule > struct ctl_uw : normal< Rule > { template< typename I, typename... S > static void unwind( const I&, S&&... ); };
+
    template< typename Rule > using only_sel = parse_tree::selector< Rule, parse_tree::store_content::on< sel > >;
    template< typename Rule > using sel_fold = parse_tree::selector< Rule, parse_tree::store_content::on< sel >, parse_tree::fold_one::on< rec >, parse_tree::discard_empty::on< other >, parse_tree::remove_content::on< key > >;
 
@@ -55,6 +58,8 @@ namespace vu::pt
       n += bool( parse_tree::parse< top >( in ) );           // store_all
       n += bool( parse_tree::parse< top, sel_fold >( in ) );
       n += bool( parse_tree::parse< top, parse_tree::node, only_sel, nothing, normal >( in, st ) );   // with an additional state
+      n += bool( parse_tree::parse< top, parse_tree::node, parse_tree::internal::store_all, nothing, ctl_uw >( in, st ) );   // wrapped control with unwind: selected handlers
+      n += bool( parse_tree::parse< top, parse_tree::node, sel_fold, nothing, ctl_uw >( in, st ) );   // ... selected and unselected handlers
       n += probe_sel< chain< 12 >, only_sel >() + probe_sel< rec, only_sel >() + probe_sel< rec, sel_fold >() + probe_sel< top, parse_tree::internal::store_all >() + probe_sel< top, sel_fold >();
       return n;
    }
